@@ -1,0 +1,40 @@
+//go:build verif
+
+// Contracts for gzv (contract-based deductive verification, /verif). Comment-only file.
+package security
+
+// C18 signed content: Pass only inside the time window and only if the signature equals the HMAC (trusted) over
+// timestamp, method, path, query and body digest joined by newlines.
+//@ func getPathQuery
+//@   property C18
+//@   results p, q
+//@   ensures implies(len(r.Header.Get("X-Request-Uri")) == 0, p == r.URL.Path && q == r.URL.RawQuery)
+//@   ensures p == r.URL.Path && q == r.URL.RawQuery
+//@   modifies nothing
+//@   allocates
+
+//@ func computeBodySignature
+//@   property C18
+//@   ghost at entry: cp = false
+//@   ghost at before Copy#0: cp = true
+//@   call Copy#0: assert arg1 == r.Body
+//@   call return#0: assert cp
+//@   modifies r.Body
+//@   allocates
+
+//@ func VerifySignature
+//@   property C18
+//@   float real
+//@   ghost at after ParseInt#0: sec = ret0
+//@   ghost at after Unix#0: nw = ret
+//@   ghost at after getPathQuery#0: gp = ret0
+//@   ghost at after getPathQuery#0: gq = ret1
+//@   ghost at after computeBodySignature#0: bs = ret
+//@   ghost at after HmacBase64#0: hm = ret
+//@   call Join#0: assert len(raw0) == 5 && raw0[0] == securityHeader.Timestamp && raw0[1] == r.Method && raw0[2] == gp && raw0[3] == gq && raw0[4] == bs && arg1 == "\n"
+//@   call return#2: assert securityHeader.Signature == hm
+//@   call return#2: assert real(sec) + rfl(tolerance) >= real(nw) && real(nw) + rfl(tolerance) >= real(sec)
+//@   call HmacBase64#0: assert arg_body == ret_join
+//@   ghost at after Join#0: ret_join = ret
+//@   ensures result == httpx.CodeSignaturePass || result == httpx.CodeSignatureInvalidHeader || result == httpx.CodeSignatureWrongTime || result == httpx.CodeSignatureInvalidToken
+//@ spec rfl(d time.Duration) float64 = real(int64(real(d) / 1000000000.0))
